@@ -151,6 +151,12 @@ func verifC19Seq(op, spec string) string {
 		}
 		out = append(out, strings.Join(pairs, "|"))
 	}
+	// the cached per-remote clients must never have been given a caller's token
+	for _, kc := range rp.clients {
+		if kc.Arvados.ApiToken != "xxx" {
+			return "shared-client-modified"
+		}
+	}
 	return strings.Join(out, ";")
 }
 
